@@ -6,8 +6,8 @@ FewAttrSets == {{"id"}, {"type", "id", "from", "to", "lang"}}
 MsgExtsAll == {"oob", "rreq", "rrcv", "markable", "mrcv", "mdisp", "mack", "active", "composing", "gone", "inactive", "paused", "nps", "nostore", "nocopy", "store"}
 MsgExtsSome == {"oob", "rreq", "rrcv", "mrcv", "active", "nostore"}
 IQPl == {"version", "discoinfo", "discoitems", "bind", "roster", "node"}
-TCAll == {"plain", "lt", "gt", "amp", "quot", "cdata", "lead", "trail", "nonasc", "mixed", "ws"}
+TCAll == {"plain", "lt", "gt", "amp", "quot", "cdata", "lead", "trail", "nonasc", "mixed", "ws", "ctrl", "dense"}
 NoneSet == {}
 TCMixed == {"mixed"}
-TCSome == {"plain", "lt", "amp", "mixed", "ws"}
+TCSome == {"plain", "lt", "amp", "mixed", "ws", "dense"}
 ====
